@@ -972,6 +972,10 @@ impl Gen {
 
     fn gen_check(&mut self, w: &World, _task: usize) -> Option<Op> {
         let doc = self.rng.below(w.model.docs.len());
+        if self.rng.pct(15) && self.p.illegal_pct > 0 {
+            self.fault("F1_readonly_map_mutation");
+            return Some(Op::DtMap { doc, which: self.rng.below(4), name: self.rng.ps(&["e1", "e2", "nope"]).to_string() });
+        }
         Some(if self.rng.pct(60) { Op::Checkpoint { doc } } else { Op::Reparse { doc } })
     }
 
